@@ -49,6 +49,9 @@ type C12Case struct {
 	Blocks []C12Block `json:"blocks"`
 	Rules  []C12Rule  `json:"rules"` // rule 0 is the bare @page rule declaring size and margin
 	// padding and bottom border of the page box (bare @page rule)
+	// WrapFrom > 0: the blocks from that index to the end sit in a plain <div> (no margin, border or padding,
+	// no style); each of them names its page, so that the first and the last content of the div differ
+	WrapFrom    int `json:"wrap_from,omitempty"`
 	PagePadT    int `json:"page_pad_t,omitempty"`
 	PagePadB    int `json:"page_pad_b,omitempty"`
 	PageBorderB int `json:"page_border_b,omitempty"`
@@ -108,6 +111,14 @@ func c12Gen(t *rapid.T, tier Tier) interface{} {
 			b.Page = rapid.SampledFrom([]string{"a", "b"}).Draw(t, "pagename")
 		}
 		c.Blocks = append(c.Blocks, b)
+	}
+	if nb >= 3 && rapid.IntRange(0, 5).Draw(t, "wrap") == 0 {
+		c.WrapFrom = rapid.IntRange(1, nb-2).Draw(t, "wrapfrom")
+		for i := c.WrapFrom; i < nb; i++ {
+			if c.Blocks[i].Page == "" {
+				c.Blocks[i].Page = rapid.SampledFrom([]string{"a", "b"}).Draw(t, "wrappage")
+			}
+		}
 	}
 	// a forced break-after and a forced break-before on the same boundary: keep one
 	for i := 1; i < len(c.Blocks); i++ {
@@ -178,6 +189,9 @@ func c12HTML(c *C12Case) string {
 		if bl.Page != "" {
 			st += "page:" + bl.Page + ";"
 		}
+		if c.WrapFrom > 0 && i == c.WrapFrom {
+			b.WriteString(`<div>`)
+		}
 		fmt.Fprintf(&b, `<p id="b%d" style="%s">`, i, st)
 		for j := 0; j < bl.Lines; j++ {
 			if j > 0 {
@@ -186,6 +200,9 @@ func c12HTML(c *C12Case) string {
 			fmt.Fprintf(&b, "%d.%d", i, j)
 		}
 		b.WriteString("</p>")
+	}
+	if c.WrapFrom > 0 {
+		b.WriteString(`</div>`)
 	}
 	b.WriteString("</body></html>")
 	return b.String()
